@@ -130,9 +130,37 @@ func buildMsg(c Case, class string) (built, bool) {
 				return b, false
 			}
 		}
-	case "lie-short":
-		if !plain(N) || N < 4 {
+	case "small":
+		if !plain(100) {
 			return b, false
+		}
+	case "flagged-big":
+		// a frame carrying a protocol-specific flag (end-of-stream / trailers) is
+		// still subject to the limit
+		if N > 1<<20 {
+			return b, false
+		}
+		b.payload = bytes.Repeat([]byte("x"), 4*N+1000)
+		b.flags = byte([]int{0x02, 0x80, 0x82, 0x03}[N%4])
+		b.wire, b.decomp = len(b.payload), len(b.payload)
+		b.text = "\x00never-delivered"
+	case "flagged-lie":
+		if N > 1<<20 || !plain(10) {
+			return b, false
+		}
+		b.flags = byte([]int{0x02, 0x80}[N%2])
+		b.lie, b.declared, b.present = true, uint32(64*N+32<<20), len(b.payload)
+	case "lie-short":
+		if N <= 1<<20 && (!plain(N) || N < 4) {
+			return b, false
+		}
+		if N > 1<<20 {
+			// huge limit: declare 1000 bytes, deliver 500
+			if !plain(1000) {
+				return b, false
+			}
+			b.lie, b.declared, b.present = true, 1000, 500
+			break
 		}
 		b.lie, b.declared, b.present = true, uint32(N), N/2
 	case "lie-long":
@@ -148,7 +176,7 @@ func buildMsg(c Case, class string) (built, bool) {
 	default:
 		return b, false
 	}
-	b.accept = !b.lie && b.wire <= N && b.decomp <= N
+	b.accept = !b.lie && b.wire <= N && b.decomp <= N && class != "flagged-big"
 	return b, true
 }
 
@@ -157,6 +185,9 @@ func goodMsg(c Case, i int) built {
 	size := c.N - (i % 3)
 	if size < 1 {
 		size = 1
+	}
+	if size > 4096 {
+		size = 4096 - (i % 3)
 	}
 	var b built
 	t, ok := textFor(c.Codec, size, true)
@@ -384,7 +415,11 @@ func check(tt *testing.T, c Case) (pbt.Info, error) {
 	if len(o.delivered) != wantMax && multi(c.Dir, c.Kind) {
 		return info, fmt.Errorf("%s: %d acceptable messages precede the probe, %d were delivered", where, wantMax, len(o.delivered))
 	}
-	if !probe.lie || c.Probe != "lie-short" {
+	if c.Probe == "flagged-big" || c.Probe == "flagged-lie" {
+		if o.code == 0 {
+			return info, fmt.Errorf("%s: refused without a valid code", where)
+		}
+	} else if !probe.lie || c.Probe != "lie-short" {
 		if o.code != 3 && o.code != 8 {
 			return info, fmt.Errorf("%s: refused with code %d, want invalid_argument or resource_exhausted", where, o.code)
 		}
@@ -401,13 +436,17 @@ func gen(t *rapid.T) Case {
 		Codec:    rapid.SampledFrom(prog.Codecs).Draw(t, "codec"),
 		Kind:     rapid.SampledFrom(prog.Kinds).Draw(t, "kind"),
 	}
-	c.N = rapid.OneOf(rapid.SampledFrom([]int{16, 20, 64, 511, 512, 513, 1024, 4096, 65536}), rapid.IntRange(14, 3000)).Draw(t, "n")
+	c.N = rapid.OneOf(rapid.SampledFrom([]int{16, 20, 64, 511, 512, 513, 1024, 4096, 65536}), rapid.IntRange(14, 3000), rapid.SampledFrom([]int{1 << 31, 1<<32 - 1, 1 << 32, 1<<32 + 16, 1 << 40, 1<<62 + 5})).Draw(t, "n")
 	if c.Dir == "client" && c.Protocol == "grpcweb" && c.N < 20 {
 		// the 16-byte trailer frame of the scripted response is itself subject
 		// to the limit (not a message: grey zone, kept out of the domain)
 		c.N = 20
 	}
-	c.Probe = rapid.SampledFrom([]string{"n-1", "n", "n+1", "n+1", "2n", "big", "bomb", "fatwire", "okcomp", "lie-short", "lie-long", "lie-max"}).Draw(t, "probe")
+	c.Probe = rapid.SampledFrom([]string{"n-1", "n", "n+1", "n+1", "2n", "big", "bomb", "fatwire", "okcomp", "lie-short", "lie-long", "lie-max", "small", "flagged-big", "flagged-lie"}).Draw(t, "probe")
+	if c.N > 1<<20 {
+		// limits beyond 32 bits: ordinary messages must simply be accepted
+		c.Probe = rapid.SampledFrom([]string{"small", "small", "lie-short"}).Draw(t, "hugeNprobe")
+	}
 	switch c.Probe {
 	case "bomb", "okcomp":
 		c.Encoding = rapid.SampledFrom([]string{"gzip", "deflate", "zlib"}).Draw(t, "encoding")
@@ -425,7 +464,7 @@ func gen(t *rapid.T) Case {
 
 var spec = pbt.Spec[Case]{
 	Prop: "C09", Name: "limits", Gen: gen, Check: check,
-	Rule: "read limit N (16..64 KiB incl. 511/512/513 and random) on a handler (requests served synchronously) or a client (scripted responses) × 3 protocols × 2 codecs × 4 kinds; 0..3 acceptable messages (sizes N, N−1, N−2, optionally compressed) followed by a probe built to an exact encoded size: N−1, N, N+1, 2N, 8N+100000; compressed with wire ≤ N < decompressed (bomb), compressed with decompressed ≤ N < wire (fat wire), compressed and within N both ways; lying prefixes (declares N with N/2 bytes present; declares 4N+1000 or 2^32−1 with 12 bytes). Oracle: non-delivery model (nothing over N by either measure reaches the application, everything within N does, earlier messages intact, refusal code ∈ {invalid_argument, resource_exhausted}); non-trivial = the probe could be built for this configuration",
+	Rule: "read limit N (16..64 KiB incl. 511/512/513 and random) on a handler (requests served synchronously) or a client (scripted responses) × 3 protocols × 2 codecs × 4 kinds; 0..3 acceptable messages (sizes N, N−1, N−2, optionally compressed) followed by a probe built to an exact encoded size: N−1, N, N+1, 2N, 8N+100000; compressed with wire ≤ N < decompressed (bomb), compressed with decompressed ≤ N < wire (fat wire), compressed and within N both ways; lying prefixes (declares N with N/2 bytes present; declares 4N+1000 or 2^32−1 with 12 bytes); oversize frames carrying a protocol-specific flag (end-of-stream / trailers); limits at and beyond 2^31/2^32 with ordinary 100-byte messages. Oracle: non-delivery model (nothing over N by either measure reaches the application, everything within N does, earlier messages intact, refusal code ∈ {invalid_argument, resource_exhausted}); non-trivial = the probe could be built for this configuration",
 }
 
 func TestLimits(t *testing.T) { pbt.Run(t, spec) }
@@ -440,7 +479,7 @@ func TestAlloc(t *testing.T) {
 		for _, dir := range []string{"handler", "client"} {
 			for _, protocol := range prog.Protocols {
 				for _, kind := range []string{prog.Unary, prog.Bidi} {
-					for _, probe := range []string{"n", "hugebomb", "lie-long", "lie-max", "big"} {
+					for _, probe := range []string{"n", "hugebomb", "lie-long", "lie-max", "big", "flagged-big", "flagged-lie"} {
 						c := Case{Dir: dir, Protocol: protocol, Codec: "proto", Kind: kind, N: N, Probe: probe, Encoding: "gzip"}
 						var p plan
 						if probe == "hugebomb" {
@@ -496,7 +535,7 @@ func TestAlloc(t *testing.T) {
 			}
 		}
 	}
-	pbt.RecordBulk("C09", "alloc", "N ∈ {4 KiB, 64 KiB, 1 MiB} × {handler, client} × 3 protocols × {unary, bidi} × {message of exactly N, gzip bomb decompressing to 64N+32 MiB, prefix declaring 4N+1000, prefix declaring 2^32−1, 8N+100000 plain}: runtime.MemStats.TotalAlloc delta around one call must stay ≤ 12·N + 4 MiB (the constant covers one-off compressor state ≈ 0.8 MiB; a limit that stopped working would show ≥ 64·N + 32 MiB for the bomb and ≥ 4N for lying prefixes only if the bytes were actually buffered); every case is non-trivial", total, total, true, samples...)
+	pbt.RecordBulk("C09", "alloc", "N ∈ {4 KiB, 64 KiB, 1 MiB} × {handler, client} × 3 protocols × {unary, bidi} × {message of exactly N, gzip bomb decompressing to 64N+32 MiB, prefix declaring 4N+1000, prefix declaring 2^32−1, 8N+100000 plain, 4N+1000 bytes under an end-of-stream/trailer flag}: runtime.MemStats.TotalAlloc delta around one call must stay ≤ 12·N + 4 MiB (the constant covers one-off compressor state ≈ 0.8 MiB; a limit that stopped working would show ≥ 64·N + 32 MiB for the bomb and ≥ 4N for lying prefixes only if the bytes were actually buffered); every case is non-trivial", total, total, true, samples...)
 }
 
 func TestReplay(t *testing.T) { pbt.ReplayMain(t, pbt.Replayer(spec)) }
